@@ -186,32 +186,35 @@ def vanished (v : Variant) (f : Field) : Field := ⟨f.ty, if v.f1 then 0 else f
 def sameF (cmp : Nat → Bytes → Bytes → Bool) (f g : Field) : Bool :=
   f.size == g.size && cmp f.ty f.data g.data
 
+/-- the field of `b` the C code compares with: the one at the aligned position `r2` if its
+    type matches, else the result of the search from the start; with the list after it -/
+def locate (ty : Nat) (b r2 : List Field) : Option (Field × List Field) :=
+  match r2 with
+  | g :: r2' => if g.ty = ty then some (g, r2') else findF ty b
+  | [] => findF ty b
+
 /-- first loop (binarydiff.c:141-288): walk `a`; `r2` is `pos2` (a suffix of `b`) -/
 def loop1F (v : Variant) (cmp : Nat → Bytes → Bytes → Bool) (b : List Field) :
     List Field → List Field → List Field
   | [], _ => []
   | f :: a', r2 =>
-    let viaSearch : List Field :=
-      match findF f.ty b with
-      | none => vanished v f :: loop1F v cmp b a' b
-      | some (g, r2') => (if sameF cmp f g then [] else [g]) ++ loop1F v cmp b a' r2'
-    match r2 with
-    | [] => viaSearch
-    | g :: r2' =>
-      if f.ty = g.ty then (if sameF cmp f g then [] else [g]) ++ loop1F v cmp b a' r2'
-      else viaSearch
+    match locate f.ty b r2 with
+    | none => vanished v f :: loop1F v cmp b a' b
+    | some (g, r2') => (if sameF cmp f g then [] else [g]) ++ loop1F v cmp b a' r2'
+
+/-- aligned position of the second loop: `some r1'` if the field at `pos1` has the type -/
+def aligned (ty : Nat) (r1 : List Field) : Option (List Field) :=
+  match r1 with
+  | f :: r1' => if f.ty = ty then some r1' else none
+  | [] => none
 
 /-- second loop (binarydiff.c:289-371): walk `b`; `r1` is `pos1` (a suffix of `a`) -/
 def loop2F (a : List Field) : List Field → List Field → List Field
   | [], _ => []
   | g :: b', r1 =>
-    let viaSearch : List Field :=
-      match findF g.ty a with
-      | none => g :: loop2F a b' a
-      | some _ => loop2F a b' a
-    match r1 with
-    | [] => viaSearch
-    | f :: r1' => if f.ty = g.ty then loop2F a b' r1' else viaSearch
+    match aligned g.ty r1 with
+    | some r1' => loop2F a b' r1'
+    | none => (if (findF g.ty a).isSome then [] else [g]) ++ loop2F a b' a
 
 /-- `reb_binary_diff(a, b, output_option = 0)` on field lists -/
 def diffF (v : Variant) (cmp : Nat → Bytes → Bytes → Bool) (a b : List Field) : List Field :=
@@ -241,26 +244,26 @@ def loop1Raw (v : Variant) (cmp : Nat → Bytes → Bytes → Bool) (body2 : Byt
   | 0, _, _ => some []
   | fuel + 1, r1, r2 =>
     match readHdr r1 with
-    | none => some []
+    | none => some []                                   -- pos1 + 16 > size1
     | some (ty1, sz1, p1) =>
       if ty1 = END then some []
       else
-        let r2 := if shorter r2 16 then body2 else r2
+        let r2 := if shorter r2 16 then body2 else r2   -- pos2 + 16 > size2 → pos2 = 64
         match readHdr r2 with
         | none => none
         | some (ty2, sz2, p2) =>
-          let common (sz2 : Nat) (p2 : Bytes) : Option Bytes :=
+          -- field2: the aligned one if the types agree, else search from the start
+          let tgt := if ty1 = ty2 then some (sz2, p2) else searchRaw ty1 (body2.length + 1) body2
+          match tgt with
+          | none =>                                     -- vanished: header only (F1: with the old size)
+            (loop1Raw v cmp body2 fuel (p1.drop sz1) body2).map
+              (fun o => hdrBytes ty1 (if v.f1 then 0 else sz1) ++ o)
+          | some (sz2, p2) =>
             if shorter p1 sz1 ∨ shorter p2 sz2 then none     -- "Corrupt binary file": memcmp out of bounds
             else
               let same := sz1 == sz2 && cmp ty1 (p1.take sz1) (p2.take sz2)
               (loop1Raw v cmp body2 fuel (p1.drop sz1) (p2.drop sz2)).map
                 (fun o => (if same then [] else hdrBytes ty1 sz2 ++ p2.take sz2) ++ o)
-          if ty1 = ty2 then common sz2 p2
-          else match searchRaw ty1 (body2.length + 1) body2 with
-            | none =>
-              (loop1Raw v cmp body2 fuel (p1.drop sz1) body2).map
-                (fun o => hdrBytes ty1 (if v.f1 then 0 else sz1) ++ o)
-            | some (sz2, p2) => common sz2 p2
 
 def loop2Raw (body1 : Bytes) : Nat → Bytes → Bytes → Option Bytes
   | 0, _, _ => some []
